@@ -206,10 +206,28 @@ def _mutate(w, tape, n):
     arr_sites = [(pth, leaf) for pth, leaf in all_sites if isinstance(leaf[2][0], dict)]
     arr_obs = [i for i, m in enumerate(t["mps"]) if m[0] == "expval" and m[1][0] in ("HB", "SPH")]
     kind = w.choice(["dup", "shift", "shift", "shift", "relabel", "trainable", "wrap", "unwrap",
-                     "measure", "measure", "delta", "swapops", "rename", "wrap_shift"])
+                     "measure", "measure", "delta", "swapops", "rename", "wrap_shift", "ctrl_perm"])
+    multi_ctrl = [i for i, o in enumerate(t["ops"]) if o[0] == "ctrl" and len(o[2]) >= 2]
+    if multi_ctrl and w.random() < 0.5:
+        kind = "ctrl_perm"
     if (arr_sites or arr_obs) and w.random() < 0.6:
         kind = "arr_bump"
     if kind == "dup":
+        return t, kind
+    if kind == "ctrl_perm":
+        # the same controlled gate with its control wires listed in another order while the control values
+        # stay where they are: a different unitary whenever the values are mixed
+        if multi_ctrl:
+            i = w.choice(multi_ctrl)
+            o = t["ops"][i]
+            t["ops"][i] = ["ctrl", o[1], list(reversed(o[2]))] + list(o[3:])
+        else:
+            cands = [i for i, o in enumerate(t["ops"]) if o[0] not in ("adjoint", "pow", "ctrl")
+                     and not isinstance((o[2] or [0])[0], dict) and len(set(wires) - set(o[1])) >= 2]
+            if cands:
+                i = w.choice(cands)
+                free = [x for x in wires if x not in t["ops"][i][1]]
+                t["ops"][i] = ["ctrl", t["ops"][i], w.sample(free, 2), w.choice([[0, 1], [1, 0], [0, 1], None])]
         return t, kind
     if kind == "arr_bump":
         # the same circuit except for a few entries of one array-valued parameter
